@@ -71,7 +71,7 @@ func (s *session) waitAllDone() {
 	s.mu.Unlock()
 	for _, sub := range subs {
 		sub := sub
-		s.within(func() { <-sub.Done() })
+		s.wait(func() { <-sub.Done() }, false)
 	}
 }
 
@@ -118,9 +118,10 @@ func runScript(sc Script, run int, timeout time.Duration) ([]Line, bool, error) 
 		}
 	}
 	s.finish(pending)
-	blocked := s.isBlocked()
+	blocked := s.isDirty()
 	if !blocked {
 		s.waitAllDone()
+		blocked = s.isDirty()
 	}
 	evs := rec.stop()
 	lines, err := normalise(s.rootID, evs, run)
